@@ -1,0 +1,13 @@
+//go:build verif
+// +build verif
+
+package erpc
+
+import "net"
+
+// VerifServeListener runs the accept path of ListenAndServe on a listener the caller has
+// already opened (ListenAndServe opens its own from the configured address and ends the
+// process if that address has been taken by someone else in the meantime).
+func VerifServeListener(p Peer, lis net.Listener, protoFunc ...ProtoFunc) error {
+	return p.(*peer).serveListener(lis, protoFunc...)
+}
